@@ -95,6 +95,7 @@ type Account struct {
 	Name, Host string
 	IsRole     bool
 	Password   string          // clear text the model knows ("" = none)
+	Plugin     string          // authentication plugin the account was created with
 	Grants     map[string]PSet // Level.Key() -> privileges granted exactly at that level
 }
 
